@@ -162,6 +162,26 @@ func main() {
 			}
 			return ""
 		}
+		// the keyword is only a NAME here: the tree must be the one an ordinary identifier gets in the same place
+		explainOf := func(sql string) string {
+			defer func() { recover() }()
+			ss, err := parser.Parse(context.Background(), strings.NewReader(sql))
+			if err != nil || len(ss) != 1 {
+				return "<no single statement>"
+			}
+			return parser.Explain(ss[0])
+		}
+		sameAsIdent := func(mk func(name string) string, sp string, marks ...string) string {
+			a, b := explainOf(mk(sp)), explainOf(mk("zzq"))
+			for _, m := range marks {
+				a = strings.ReplaceAll(a, m+sp, m+"zzq")
+			}
+			if a != b {
+				return "EXPLAIN differs from the one with an ordinary identifier in the same place\t" + mk(sp)
+			}
+			return ""
+		}
+		_ = sameAsIdent
 		for i, kw := range kws {
 			for _, sp := range cases(kw, i)[1:3] {
 				for _, q := range quals {
@@ -177,6 +197,18 @@ func main() {
 						d := has(sql, "(alias "+sp+")")
 						report(d == "", kw, "x:column-alias", sp, d+"\t"+sql)
 					}
+					e := e
+					d := sameAsIdent(func(n string) string { return "SELECT " + e + " AS " + n + ", 2 FROM t" }, sp, "(alias ")
+					report(d == "", kw, "x:column-alias-tree", sp, d)
+				}
+				// forms in which more tokens of the SAME expression follow the alias
+				for _, t := range []string{"SELECT INTERVAL '2' AS %s MINUTE", "SELECT CAST(1 AS %s AS UInt8)", "SELECT CAST(1 AS %s, 'UInt8')", "SELECT f(1 AS %s, 2)", "SELECT [1 AS %s, 2]",
+					"SELECT (1 AS %s, 2)", "SELECT substring(s AS %s FROM 1)", "SELECT 1 AS %s WHERE 1", "WITH 1 AS %s SELECT 2", "SELECT x FROM t ARRAY JOIN a AS %s", "SELECT sum(1) OVER (PARTITION BY 1) AS %s",
+					"SELECT * FROM t AS %s FINAL", "SELECT * FROM t AS %s SAMPLE 0.1", "SELECT * FROM t AS %s JOIN u AS %s ON 1", "SELECT extract(DAY FROM d) AS %s, 2"} {
+					t := t
+					mk := func(n string) string { return strings.ReplaceAll(t, "%s", n) }
+					d := sameAsIdent(mk, sp, "(alias ")
+					report(d == "", kw, "x:alias-inside-expression", sp, d)
 				}
 				for _, t := range tables {
 					for _, f := range tabFollow {
